@@ -221,6 +221,45 @@ def _shipped_task(task):
     return acc
 
 
+def _big_task(task):
+    """large state objects: long passwords / identities (certificates used as identities) and heavy whitespace"""
+    name, side = task
+    acc = Acc()
+    inst, why = T.try_get(name)
+    if inst is None:
+        return acc
+    j = 0
+    for pw, idlen, pad in ((b"P" * 2000, 0, 0), (b"pw", 450, 0), (b"pw", 3, 5000), (b"Q" * 5000, 2000, 100)):
+        x = (3 + j) % inst.q
+        ids = (b"I" * idlen,) if side == "S" else (b"I" * idlen, b"J" * idlen)
+        sd = statefmt.state_dict(inst.rp, side, pw, ids, x)
+        keys = list(sd)
+        blob = statefmt.dumps(sd, keys[::-1], "indented")
+        if pad:
+            blob = b" " * pad + blob + b"\n" * pad
+        w = inst.ref.pw_scalar(pw)
+        d = C.inbound_menu(inst, side, w, x)[0][1]
+        desc = {"inst": inst.desc, "side": side, "blob": blob, "pw": pw, "ids": list(ids), "x": x}
+        r = T.observe(inst.restore, side, blob)
+        acc.n(states=1, transitions=2, traces=1)
+        if r[0] != "ok":
+            acc.violation("C10/%s/%s/released-state-refused" % (fam(inst), side),
+                          {"what": "from_serialized() refuses a large (%d bytes) state object in the released format" % len(blob),
+                           "replay": desc, "expected": "instance", "observed": r})
+        else:
+            exp = RS.finish(inst.rp, side, pw, w, ids, x, d)
+            got = T.observe(r[1].finish, d)
+            if exp[0] == "key" and got != ("ok", exp[1]):
+                acc.violation("C10/%s/%s/released-state-resumes-other-session" % (fam(inst), side),
+                              {"what": "large state object does not resume the session it describes", "replay": dict(desc, delivered=d),
+                               "expected": exp[1], "observed": got})
+            else:
+                acc.seen((fam(inst), side, "big", len(blob) // 1000))
+        check_output(inst, side, pw, ids, x, acc)
+        j += 1
+    return acc
+
+
 def _golden(acc):
     for v in golden.load()["vectors"]:
         inst, why = T.try_get(v["set"])
@@ -280,14 +319,17 @@ def run(tier, seed):
             tasks.append(("shipped", (name, side, seed)))
     for name in ["T23", "E37"] + T.SHIPPED:
         tasks.append(("mixed", (name,)))
-    tasks.sort(key=lambda t: -{"sessions": 1, "orders": 3, "shipped": 50, "mixed": 40}[t[0]] * T.get(t[1][0]).ref.esize)
+    for name in ["T23", "ParamsEd25519"] + ([] if quick else ["Params1024", "E37"]):
+        for side in "ABS":
+            tasks.append(("big", (name, side)))
+    tasks.sort(key=lambda t: -{"sessions": 1, "orders": 3, "shipped": 50, "mixed": 40, "big": 10}[t[0]] * T.get(t[1][0]).ref.esize)
     core.pmerge(_dispatch, tasks, acc)
     _golden(acc)
     return acc
 
 
 def _dispatch(t):
-    return {"sessions": _sessions_task, "orders": _orders_task, "shipped": _shipped_task, "mixed": _mixed_task}[t[0]](t[1])
+    return {"sessions": _sessions_task, "orders": _orders_task, "shipped": _shipped_task, "mixed": _mixed_task, "big": _big_task}[t[0]](t[1])
 
 
 def replay(rec):
